@@ -162,6 +162,24 @@ def gen_cases(rng, tier):
       # under-specified: several species named only by density entries -> zero-filled element order matters
       m = spec.gen_eam_model(rng, kind, "potable", target=t, depth=1, grids={"nr": 4, "nrho": 3}, nspecies=4, underspecified=0)
       m["embed"] = m["embed"][:1]
+      if i % 4 == 2:
+        # the zero-filled species carry labels that differ only in case ('Al', 'AL', 'aL'): any ordering that folds
+        # case leaves their relative order to the (hash-seed dependent) iteration order of a set
+        keep = m["embed"][0][0]
+        others = [x for x in m["all_species"] if x != keep]
+        mapping = dict([(keep, "Cu")] + list(zip(others, ["Al", "AL", "aL", "al"])))
+        extra = []
+        for key_ in ("pair", "dipole", "quadrupole"):
+          for ent_ in m.get(key_) or []:
+            for x_ in ent_[:2]:
+              if x_ not in mapping and x_ not in extra:
+                extra.append(x_)
+        mapping.update(dict(zip(extra, ["Ni", "Fe", "Ag", "Au", "Pt", "Pd", "Zn", "Mg"])))      # labels named in pairs only
+        m = spec.rename_species(m, mapping)
+        for j_, k_ in enumerate(m["all_species"]):
+          d_ = m.setdefault("species", {}).setdefault(k_, {})
+          d_.setdefault("atomic_number", 13 + j_)
+          d_.setdefault("atomic_mass", 26.98 + j_)
     else:
       m = gen_model(rng, i, "potable")["model"]
     seeds = HASHSEEDS + [rng.randrange(1, 4000000000) for _ in range(4)]
